@@ -17,12 +17,12 @@ open XmppModel XmppModel.Xml XmppModel.Encoder
 
 /-- every function of the package that mentions `….out.e`, with how it is protected:
 `locked` = first statement `s.out.Lock()`, second `defer s.out.Unlock()`; `holder` = a method
-of `lockWriteCloser`, which only `TokenWriter` creates; `setup` = `negotiateSession` (no
-other goroutine has the session yet) -/
+of `lockWriteCloser`, which only `TokenWriter` creates; `setup` = `negotiateSession` / `writeStreamFeatures`
+(stream negotiation: no other goroutine has the session yet) -/
 def expectedFns : List (String × String) :=
   [("Encode", "locked"), ("EncodeElement", "locked"), ("lockWriteCloser.EncodeToken", "holder"),
    ("lockWriteCloser.Flush", "holder"), ("negotiateSession", "setup"), ("send", "locked"),
-   ("sendError", "locked")]
+   ("sendError", "locked"), ("writeStreamFeatures", "setup")]
 
 theorem C05_gen_lock_discipline : Generated.C05.transmitFns = some expectedFns := by decide
 
